@@ -38,11 +38,13 @@ BIG_TYPES = ['(seq vec (prim u8))', '(text string)', '(seq deque (prim u8))', '(
 def gen_big_cases(seed, tier, type_filter=None):
     """Byte vectors longer than the decoder's 1 MiB first chunk (the doubling path)."""
     rng = random.Random(seed * 104729 + 7)
-    sizes = [2 ** 20 + 1, 2 ** 21 + 5] if tier == 'quick' else [2 ** 20, 2 ** 20 + 1, 2 ** 21 - 1, 2 ** 21 + 5, 3 * 2 ** 20 + 7, 2 ** 22 + 1]
+    sizes = [2 ** 20 + 1] if tier == 'quick' else [2 ** 20, 2 ** 20 + 1, 2 ** 21 - 1, 2 ** 21 + 5, 3 * 2 ** 20 + 7, 2 ** 22 + 1]
     cases = []
     for tid, t in catmod.catalogue_types():
         sx = sexp(t)
         if sx not in BIG_TYPES or (type_filter and not type_filter(t)):
+            continue
+        if tier == 'quick' and sx in BIG_TYPES[3:5]:
             continue
         for j, n in enumerate(sizes if sx in BIG_TYPES[:2] else sizes[:1]):
             blob = '(b %s)' % bytes((i * 7 + j + 0x61) % 0x7f + 1 if i % 4096 else 0x70 for i in range(n)).hex()
